@@ -1,0 +1,6 @@
+//go:build !verif
+
+package basestore
+
+// verifStatus is a no-op unless built with -tags verif.
+func (b *BaseStore) verifStatus(kind string, arg int) {}
